@@ -44,7 +44,7 @@ ANCHORS: Dict[str, List[str]] = {
     "_services/browser.py": ["C04", "C10", "C13", "C07"],
     "_services/info.py": ["C18", "C13", "C09", "C19", "C03", "C07"],
     "_services/registry.py": ["C03", "C08", "C09"],
-    "_core.py": ["C09", "C08", "C17", "C11", "C07"],
+    "_core.py": ["C09", "C08", "C17", "C03", "C12", "C11", "C07"],
     "_utils/name.py": ["C19", "C09"],
     "asyncio.py": ["C17", "C08"],
     "_engine.py": ["C17", "C15", "C11"],
@@ -62,6 +62,7 @@ CMP_SWAP = {"<": "<=", "<=": "<", ">": ">=", ">=": ">", "==": "!=", "!=": "==", 
             "not in": "in"}
 BIN = {ast.Add: "+", ast.Sub: "-", ast.Mult: "*", ast.Div: "/", ast.FloorDiv: "//"}
 BIN_SWAP = {"+": "-", "-": "+", "*": "/", "/": "*", "//": "*"}
+SCALE_ONLY = os.environ.get("MUT_SCALE_ONLY") == "1"     # second family: numeric constants >= 10 doubled / halved, nothing else
 SKIP_FUNCS = {"__repr__", "__str__", "_repr_base", "__init_subclass__", "log_warning_once", "log_exception_warning",
               "log_exception_debug", "log_exception_once", "_entry_as_string", "_dns_incoming_as_string"}
 
@@ -87,7 +88,7 @@ class Gen(ast.NodeVisitor):
         return self.pos(node.lineno, node.col_offset), self.pos(node.end_lineno, node.end_col_offset)  # type: ignore[attr-defined]
 
     def add(self, a: int, b: int, new: str, op: str, lineno: int) -> None:
-        if self.skip:
+        if self.skip or (SCALE_ONLY and op != "int_scale"):
             return
         old = self.text[a:b]
         if old == new:
@@ -199,6 +200,10 @@ class Gen(ast.NodeVisitor):
         elif isinstance(v, int) and not isinstance(v, bool):
             if self.text[a:b].lower().startswith("0x") and v > 0xff:
                 self.add(a, b, hex(v >> 1), "int_const", node.lineno)
+            elif SCALE_ONLY:
+                if v >= 10:
+                    self.add(a, b, str(v * 2), "int_scale", node.lineno)
+                    self.add(a, b, str(v // 2), "int_scale", node.lineno)
             else:
                 self.add(a, b, str(v + 1), "int_const", node.lineno)
                 if v > 1:
@@ -305,7 +310,7 @@ def checks_one(m: Dict[str, Any], jobs: int, ids: List[str]) -> Dict[str, Any]:
     m["checks"] = {}
     try:
         env = dict(os.environ, VERIF_REPO=tmp, VERIF_FAILFAST="1")
-        for pid in ids or ANCHORS.get(m["file"], []):
+        for pid in ids or m.get("ids") or ANCHORS.get(m["file"], []):
             p = subprocess.run(["/venv/bin/python", os.path.join(HERE, "run_check.py"), pid, "--tier", "quick", "--no-evidence", "--jobs", str(jobs)],
                                env=env, stdout=subprocess.PIPE, stderr=subprocess.STDOUT, cwd=HERE)
             out = p.stdout.decode(errors="replace")
